@@ -19,10 +19,13 @@ class Unsupported(Exception):
 
 class Raise:
     """exceptional outcome"""
-    def __init__(self, exc, site="", payload=None):
+    def __init__(self, exc, site="", payload=None, abstract=False):
         self.exc = exc
         self.site = site
         self.payload = payload
+        # abstract: the outcome of a callee's `raises` clause -- the exception is SOME instance of `exc`,
+        # possibly of a subclass, so a handler for a subclass may or may not catch it
+        self.abstract = abstract
 
     def __repr__(self):
         return f"Raise<{self.exc}@{self.site}>"
@@ -894,6 +897,21 @@ class Exec:
             if o[0] == RAISE:
                 handled = False
                 for h in s.handlers:
+                    if o[1].abstract and not self.eng.handler_matches(self, st1, h, o[1]):
+                        # a callee's may-raise clause names a class; the handler names a subclass of it: the
+                        # exception may be caught here (fork, narrowed to the handler's class) or pass on
+                        sub = self.eng.handler_may_match(self, st1, h, o[1])
+                        if sub is not None:
+                            st_c = st1.fork()
+                            r_c = Raise(sub, o[1].site, o[1].payload, abstract=True)
+                            st_c.frames[-1] = dict(st_c.frames[-1])
+                            st_c.vars["__current_exception__"] = Const("exc", r_c)
+                            if h.name:
+                                st_c.vars[h.name] = Const("exc", r_c)
+                            for st2, o2 in self.block(st_c, h.body):
+                                st2.vars.pop("__current_exception__", None)
+                                res.append((st2, o2))
+                        continue
                     if self.eng.handler_matches(self, st1, h, o[1]):
                         handled = True
                         st1.frames[-1] = dict(st1.frames[-1])
